@@ -1,61 +1,191 @@
 /-
-C36 — model of concurrent read-only queries against one engine (core-only).
+C36 — model of concurrent read-only sessions against one engine (core-only).
 
-Each query `i` goes through three atomic steps, interleaved arbitrarily with the steps of the
-other queries (the process-list mutex and the atomic status counters make each step atomic in
-the code; that abstraction is what the race-detector runs validate):
+`n` sessions run programs (lists of statements) against one committed store `db`. What a statement
+may touch:
 
-  begin i    : Questions += 1 (atomic), process list BeginQuery (Threads_running += 1, under mu)
-  eval i     : the query is evaluated — a function of the committed store `db` only — and
-               Com_select += 1
-  finish i   : EndQuery (Threads_running -= 1)
+  * the committed store `db`            — READ ONLY (no step of the model writes it);
+  * the state its own session owns      — user variables, current database, warning list,
+                                          session status counters (`Local`); read and written;
+  * the shared registries               — global `Questions` / `Com_select` (atomic adds in
+                                          `sql.IncrementStatusVariable`), `Threads_running` and the
+                                          process-list entry of the connection (`ProcessList`
+                                          methods, each under `pl.mu`).
 
-Events that are not enabled (wrong phase, unknown query) are no-ops.
+A statement of session `i` is executed as four atomic steps, interleaved arbitrarily with the
+steps of the other sessions (this is the bracket `Handler.doQuery` puts around `Engine.Query`;
+each step is atomic because it is a mutex-protected method or an atomic add — the abstraction
+the race-detector runs validate):
+
+  idle      → began      `ProcessList.BeginQuery`: Threads_running += 1, Command := Query
+  began     → counted    `Engine.QueryWithBindings` entry: Questions += 1 (global and session)
+  counted   → evaluated  bind / analyse / execute: the result is a function of `db` and of the
+                         session's own `Local`; Com_select += 1 (global and session) when the
+                         analysed node is a SELECT; the session's `Local` is updated
+  evaluated → idle       `ProcessList.EndQuery`: Threads_running -= 1, Command := Sleep; pc += 1
+
+A schedule is a list of session ids: "session `i` takes its next step". Ids `≥ n` and sessions
+whose program is finished are no-ops.
 -/
 namespace Gms.NonInterf
 
 inductive Phase where
-  | idle | began | evaluated | done
+  | idle | began | counted | evaluated
   deriving DecidableEq, Repr
 
-inductive Ev where
-  | begin (i : Nat) | eval (i : Nat) | finish (i : Nat)
-  deriving Repr
+/-- The state a session owns. User variables: absent or `none` = SQL NULL. -/
+structure Local where
+  vars : List (String × Option Int)
+  curDb : String
+  warn : Nat
+  questions : Nat
+  comSelect : Nat
+  deriving DecidableEq, Repr
 
-structure St (Db R : Type) where
+/-- Statements. `read` is any statement whose result is a function of the committed store only
+(every table query); the others read and write session-owned state. -/
+inductive Stmt (Db : Type) where
+  /-- a table query: result = `f db`; `sel` = the analysed node is a SELECT; `warn = none`: the
+  statement failed before binding finished (parse error, unknown table) and the warning list is
+  kept, `some w`: the list is replaced by `w` warnings. -/
+  | read (f : Db → String) (sel : Bool) (warn : Option Nat)
+  | setVar (v : String) (k : Int)     -- SET @v = k
+  | addVar (v : String) (k : Int)     -- SET @v = @v + k
+  | getVar (v : String)               -- SELECT @v
+  | useDb (d : String)                -- USE d
+  | curDb                             -- SELECT DATABASE()
+  | sessQuestions                     -- SHOW SESSION STATUS LIKE 'Questions'
+  | sessComSelect                     -- SHOW SESSION STATUS LIKE 'Com_select'
+  | divZero                           -- SELECT 1/0   (NULL + warning 1365)
+  | showWarnings                      -- SHOW WARNINGS (number of rows)
+
+def lookupVar (vars : List (String × Option Int)) (v : String) : Option Int :=
+  match vars.find? (fun p => p.1 == v) with
+  | some p => p.2
+  | none => none
+
+def setVarL (vars : List (String × Option Int)) (v : String) (x : Option Int) : List (String × Option Int) :=
+  (v, x) :: vars.filter (fun p => p.1 != v)
+
+def showVal : Option Int → String
+  | none => "null"
+  | some k => "i:" ++ toString k
+
+/-- Is the analysed node a SELECT (`plan.NodeRepresentsSelect`)? -/
+def Stmt.isSelect {Db : Type} : Stmt Db → Bool
+  | .read _ sel _ => sel
+  | .getVar _ | .curDb | .divZero => true
+  | _ => false
+
+/-- Evaluation of one statement: result text and the session's new `Local`. The store is an
+argument, never a result. `SET` keeps the warning list, `SHOW WARNINGS` keeps it, every other
+successfully bound statement clears it (`clearWarnings` in engine.go). -/
+def sem {Db : Type} (st : Stmt Db) (db : Db) (l : Local) : String × Local :=
+  let l := if st.isSelect then { l with comSelect := l.comSelect + 1 } else l
+  match st with
+  | .read f _ w => (f db, match w with | none => l | some w => { l with warn := w })
+  | .setVar v k => ("ok", { l with vars := setVarL l.vars v (some k) })
+  | .addVar v k => ("ok", { l with vars := setVarL l.vars v ((lookupVar l.vars v).map (· + k)) })
+  | .getVar v => (showVal (lookupVar l.vars v), { l with warn := 0 })
+  | .useDb d => ("ok", { l with curDb := d, warn := 0 })
+  | .curDb => ("s:" ++ l.curDb, { l with warn := 0 })
+  | .sessQuestions => ("i:" ++ toString l.questions, { l with warn := 0 })
+  | .sessComSelect => ("i:" ++ toString l.comSelect, { l with warn := 0 })
+  | .divZero => ("null", { l with warn := 1 })
+  | .showWarnings => ("i:" ++ toString l.warn, l)
+
+/-- One session: its own state, program counter, position inside the current statement, the
+results it has received (most recent first) and its process-list entry (`true` = Query). -/
+structure Sess where
+  loc : Local
+  pc : Nat
+  phase : Phase
+  results : List String
+  command : Bool
+  deriving DecidableEq, Repr
+
+def initLocal : Local := { vars := [], curDb := "d", warn := 0, questions := 0, comSelect := 0 }
+def initSess : Sess := { loc := initLocal, pc := 0, phase := .idle, results := [], command := false }
+
+/-- The next step of one session, seen from that session alone. -/
+def lstep {Db : Type} (db : Db) (prog : List (Stmt Db)) (s : Sess) : Sess :=
+  match prog[s.pc]? with
+  | none => s
+  | some st =>
+    match s.phase with
+    | .idle => { s with phase := .began, command := true }
+    | .began => { s with phase := .counted, loc := { s.loc with questions := s.loc.questions + 1 } }
+    | .counted =>
+      let r := sem st db s.loc
+      { s with phase := .evaluated, loc := r.2, results := r.1 :: s.results }
+    | .evaluated => { s with phase := .idle, pc := s.pc + 1, command := false }
+
+structure St (Db : Type) where
   db : Db
   questions : Nat
   comSelect : Nat
   running : Nat
-  phase : Nat → Phase
-  result : Nat → Option R
+  sess : Nat → Sess
 
 def upd {β : Type} (f : Nat → β) (i : Nat) (v : β) : Nat → β := fun j => if j = i then v else f j
 
-def init {Db R : Type} (db : Db) : St Db R :=
-  { db := db, questions := 0, comSelect := 0, running := 0, phase := fun _ => .idle, result := fun _ => none }
+def init {Db : Type} (db : Db) : St Db :=
+  { db := db, questions := 0, comSelect := 0, running := 0, sess := fun _ => initSess }
 
-/-- `n` queries; `q i` is what query `i` computes from the store. -/
-def step {Db R : Type} (n : Nat) (q : Nat → Db → R) (s : St Db R) : Ev → St Db R
-  | .begin i =>
-    if i < n ∧ s.phase i = .idle then
-      { s with questions := s.questions + 1, running := s.running + 1, phase := upd s.phase i .began }
-    else s
-  | .eval i =>
-    if i < n ∧ s.phase i = .began then
-      { s with comSelect := s.comSelect + 1, phase := upd s.phase i .evaluated, result := upd s.result i (some (q i s.db)) }
-    else s
-  | .finish i =>
-    if i < n ∧ s.phase i = .evaluated then
-      { s with running := s.running - 1, phase := upd s.phase i .done }
-    else s
+/-- The global step "session `i` moves": the shared registries are updated together with the
+session's own state; `db` is copied. -/
+def step {Db : Type} (n : Nat) (progs : Nat → List (Stmt Db)) (g : St Db) (i : Nat) : St Db :=
+  if i < n then
+    let s := g.sess i
+    match (progs i)[s.pc]? with
+    | none => g
+    | some st =>
+      match s.phase with
+      | .idle =>
+        { g with running := g.running + 1, sess := upd g.sess i { s with phase := .began, command := true } }
+      | .began =>
+        { g with questions := g.questions + 1,
+                 sess := upd g.sess i { s with phase := .counted, loc := { s.loc with questions := s.loc.questions + 1 } } }
+      | .counted =>
+        let r := sem st g.db s.loc
+        { g with comSelect := g.comSelect + (if st.isSelect then 1 else 0),
+                 sess := upd g.sess i { s with phase := .evaluated, loc := r.2, results := r.1 :: s.results } }
+      | .evaluated =>
+        { g with running := g.running - 1, sess := upd g.sess i { s with phase := .idle, pc := s.pc + 1, command := false } }
+  else g
 
-def run {Db R : Type} (n : Nat) (q : Nat → Db → R) (db : Db) (evs : List Ev) : St Db R :=
-  evs.foldl (step n q) (init db)
+def run {Db : Type} (n : Nat) (progs : Nat → List (Stmt Db)) (db : Db) (evs : List Nat) : St Db :=
+  evs.foldl (step n progs) (init db)
 
-/-- Number of queries among `0..n-1` whose phase satisfies `p`. -/
-def cnt (p : Phase → Bool) (f : Nat → Phase) : Nat → Nat
+/-- `k` steps of one session running alone. -/
+def solo {Db : Type} (db : Db) (prog : List (Stmt Db)) : Nat → Sess
+  | 0 => initSess
+  | k + 1 => lstep db prog (solo db prog k)
+
+/-! ### Spec: a session run alone, statement by statement -/
+
+/-- Sequential execution of a program on a private session: (results in order, final `Local`). -/
+def seqRun {Db : Type} (db : Db) : List (Stmt Db) → Local → List String × Local
+  | [], l => ([], l)
+  | st :: rest, l =>
+    let r := sem st db { l with questions := l.questions + 1 }
+    let t := seqRun db rest r.2
+    (r.1 :: t.1, t.2)
+
+/-- Sum over the sessions `0..n-1`. -/
+def sumN (f : Nat → Nat) : Nat → Nat
   | 0 => 0
-  | n + 1 => cnt p f n + (if p (f n) then 1 else 0)
+  | n + 1 => sumN f n + f n
+
+def busy (s : Sess) : Nat := if s.phase = .idle then 0 else 1
+
+/-- Occurrences of `i` in a schedule. -/
+def occ (i : Nat) : List Nat → Nat
+  | [] => 0
+  | j :: rest => (if j = i then 1 else 0) + occ i rest
+
+/-- All sessions have finished their programs. -/
+def finished {Db : Type} (n : Nat) (progs : Nat → List (Stmt Db)) (g : St Db) : Prop :=
+  ∀ i, i < n → (g.sess i).pc = (progs i).length ∧ (g.sess i).phase = .idle
 
 end Gms.NonInterf
